@@ -5,6 +5,8 @@ ROOT = os.path.dirname(os.path.dirname(os.path.abspath(__file__)))
 src = sys.argv[1] if len(sys.argv) > 1 else "/tmp/agent-out"
 only = sys.argv[2:]
 allp = "--all" in only
+grp = "--group" in only  # the target property's family of checks only (flow / batch / store)
+GROUPS = [["C01", "C02", "C03", "C04", "C05", "C10", "C18", "C19"], ["C06", "C07", "C08", "C09", "C11", "C12", "C17", "C20"], ["C13", "C14", "C15", "C16"]]
 only = [o for o in only if not o.startswith("--")]
 rows = []
 for d in sorted(glob.glob(os.path.join(src, "C*"))):
@@ -17,9 +19,9 @@ for d in sorted(glob.glob(os.path.join(src, "C*"))):
         demo = os.path.join(d, f"demo_{ab.lower()}_test.go")
         if not os.path.exists(patch):
             continue
-        out = f"/tmp/agent-{name}.json"
+        out = f"/tmp/agent-{os.getpid()}-{name}.json"
         cmd = [os.path.join(ROOT, "selftest", "mutate.py"), patch, "--demo", demo, "--json", out]
-        cmd += ["--all"] if allp else ["--props", prop]
+        cmd += ["--all"] if allp else ["--props", ",".join([prop] + [q for g in GROUPS if prop in g for q in g if q != prop]) if grp else prop]
         p = subprocess.run(cmd, stdout=subprocess.PIPE, stderr=subprocess.STDOUT, text=True)
         try:
             r = json.load(open(out)); os.remove(out)
